@@ -2,10 +2,13 @@
 lang-sync, lang-clockdomains, lang-controlinserter, lang-domainrenamer).  Plain ints; no amaranth import.
 
 The modelled design (built for real in vf/props/c03.py):
-  core module : cnt  (2 bit, +1 every active edge, domain sync)      rl  (1 bit, reset_less, toggles, sync)
+  core module : cnt  (2 bit, +1 every active edge, domain sync)      rl[0] (reset_less, toggles, sync)
+                (rl is a reset_less 2-bit signal, init 0b11, of which only bit 0 is ever assigned)
+                rw <= ~rl[0]  (a fully driven reset_less signal, sync)
                 sp[0] (bit 0 of the shared signal sp, toggles, sync)
                 [cntb (2 bit, +1, domain other)  rlb (1 bit, reset_less, toggles, other)       if logic_b: this ONE module
-                 sq[0] (toggles, sync)  sq[1] (toggles, other): a second split signal]       then has logic in two domains
+                 sq[0] (toggles, sync)  sq[1] (toggles, other): a second split signal         then has logic in two domains
+                 rs[0] <= ~rl[0] (sync)  rs[1] <= ~rlb (other): a RESET_LESS signal split between the two domains]
   leaf module : sp[1] (bit 1 of sp, toggles, domain other -- sync in single-domain designs)
                 memory 2 x 1 bit, write port (sync): mem[cnt[0]] <= d, en = 1
                                   sync read port (sync): rdata <= mem[rl], en = 1, not transparent      (ports "n"/"nt")
@@ -18,7 +21,8 @@ Semantics implemented here (the statement, literally):
   * an element changes only at the active edge of the clock of its (final) domain, or -- domains with asynchronous
     reset -- at the rise of that reset, which loads init into every non-reset-less signal of the domain and does
     nothing else;
-  * active edge: domain reset asserted -> init (reset-less signals: behave as if there was no reset);
+  * active edge: domain reset asserted -> init (reset-less signals: behave as if there was no reset; no bit of a
+    reset-less signal is ever touched by a domain reset or an inserted reset, however few of its bits a domain drives);
     otherwise any inserted reset that is asserted and not frozen -> init; otherwise all enables asserted -> next
     value; otherwise hold;
   * wrappers are applied innermost first; a wrapper acts on an element iff the element lies inside the wrapped
@@ -48,7 +52,7 @@ WRAPPERS = {
 }
 CONTROLS = ("r1", "r2", "ra", "rb", "e1", "e2", "ea", "eb")
 
-INITS = {"cnt": 1, "rl": 1, "sp0": 0, "sp1": 1, "cntb": 2, "rlb": 0, "sq0": 1, "sq1": 0, "rdata": 0, "m0": 0, "m1": 1}
+INITS = {"cnt": 1, "rl": 1, "rl1": 1, "rw": 1, "rs0": 1, "rs1": 0, "sp0": 0, "sp1": 1, "cntb": 2, "rlb": 0, "sq0": 1, "sq1": 0, "rdata": 0, "m0": 0, "m1": 1}
 
 
 class Elem:
@@ -77,11 +81,16 @@ class Model:
         self.arst_doms = [n for n in self.dom_names if self.rkind[n] == "async"]
         self.inits = dict(INITS)
         other = "other" if two else "sync"
+        # rl is a reset_less 2-bit signal of which only bit 0 is ever assigned; rw is a fully driven reset_less signal
         elems = [Elem("cnt", 2, False, "sync", "core"), Elem("rl", 1, True, "sync", "core"),
-                 Elem("sp0", 1, False, "sync", "core"), Elem("sp1", 1, False, other, "leaf")]
+                 Elem("rl1", 1, True, None, "core", kind="const"),
+                 Elem("sp0", 1, False, "sync", "core"), Elem("sp1", 1, False, other, "leaf"),
+                 Elem("rw", 1, True, "sync", "core")]
         if cfg.get("logic_b"):
             elems += [Elem("cntb", 2, False, "other", "core"), Elem("rlb", 1, True, "other", "core"),
-                      Elem("sq0", 1, False, "sync", "core"), Elem("sq1", 1, False, "other", "core")]
+                      Elem("sq0", 1, False, "sync", "core"), Elem("sq1", 1, False, "other", "core"),
+                      # rs: ONE reset_less signal whose bits are split between the two domains
+                      Elem("rs0", 1, True, "sync", "core"), Elem("rs1", 1, True, "other", "core")]
         self.ports = cfg.get("ports", "n")
         self.rports = []
         if "n" in self.ports:
@@ -173,7 +182,11 @@ class Model:
     def _next(self, name, v):
         if name in ("cnt", "cntb"):
             return (v[name] + 1) & 3
-        return v[name] ^ 1            # rl, rlb, sp0, sp1
+        if name in ("rw", "rs0"):
+            return v["rl"] ^ 1
+        if name == "rs1":
+            return v["rlb"] ^ 1
+        return v[name] ^ 1            # rl, rlb, sp0, sp1, sq0, sq1
 
     def _dom_reset(self, dom, iv, lv):
         rk = self.rkind[dom]
@@ -267,7 +280,7 @@ class Model:
                         flags.append("inactive_edge")
             if len(active) >= 2:
                 flags.append("simultaneous_active_edges")
-            populated = {e.dom for e in self.elems}
+            populated = {e.dom for e in self.elems if e.kind != "const"}
             if len(active) == 1 and len(populated) == 2 and active[0] in ("sync", "other"):
                 flags.append("other_domain_edge_only")
                 # a per-domain control of the idle domain is asserted while this domain's own control is not
@@ -314,6 +327,12 @@ class Model:
                         new[e.name] = e.init
                     elif what == "update":
                         new[e.name] = self._next(e.name, v)
+                        if e.name in ("rl", "rs0", "rs1") and new[e.name] != e.init:
+                            # a bit of the partially driven reset-less signal takes a value other than its init while ...
+                            if "inserted_reset_skips_reset_less" in fl:
+                                flags.append("partially_driven_reset_less_not_init_under_inserted_reset")
+                            if dr:
+                                flags.append("partially_driven_reset_less_not_init_under_domain_reset")
                 if self.wp.dom == dom:
                     if all(iv[c] for c in self.wp.ens):
                         rows2[v["cnt"] & 1] = iv["d"]
